@@ -569,16 +569,20 @@ class EndpointLookupInterface(ThingWithCommonRD, ObservableResource):
                     def matches(x, original_matches=matches):
                         return any(original_matches(v) for v in x.split())
 
+                # The filters are applied right away (lists, not generator
+                # expressions): a lazily evaluated filter would look up
+                # search_key and matches only when iterated, by which time
+                # they belong to the last criterion.
                 if search_key == "href":
-                    candidates = (
+                    candidates = [
                         c
                         for c in candidates
                         if matches(c.href)
                         or any(matches(r.href) for r in c.get_based_links().links)
-                    )
+                    ]
                     continue
 
-                candidates = (
+                candidates = [
                     c
                     for c in candidates
                     if (
@@ -591,7 +595,7 @@ class EndpointLookupInterface(ThingWithCommonRD, ObservableResource):
                         _link_matches(r, search_key, matches)
                         for r in c.get_based_links().links
                     )
-                )
+                ]
 
         candidates = _paginate(candidates, query)
 
@@ -629,18 +633,19 @@ class ResourceLookupInterface(ThingWithCommonRD, ObservableResource):
                     def matches(x, original_matches=matches):
                         return any(original_matches(v) for v in x.split())
 
+                # (lists rather than generator expressions, see endpoint lookup)
                 if search_key == "href":
-                    candidates = (
+                    candidates = [
                         (e, c)
                         for (e, c) in candidates
                         if matches(c.href)
                         or matches(
                             e.href
                         )  # FIXME: They SHOULD give this as relative as we do, but don't have to
-                    )
+                    ]
                     continue
 
-                candidates = (
+                candidates = [
                     (e, c)
                     for (e, c) in candidates
                     if _link_matches(c, search_key, matches)
@@ -650,7 +655,7 @@ class ResourceLookupInterface(ThingWithCommonRD, ObservableResource):
                             matches(x) for x in e.registration_parameters[search_key]
                         )
                     )
-                )
+                ]
 
         # strip endpoint
         candidates = (c for (e, c) in candidates)
